@@ -102,7 +102,7 @@ def check(case, out):
     out.label(*TP.tree_labels(tree, R))
     out.label("log_alg:" + case["log_alg"], "trace_alg:" + case["trace_alg"], "fn:" + case["fn"])
     A = IR.build(tree)
-    if TP.scalar_invalidated_annotations(A) & {"PSD", "SelfAdjoint"}:
+    if TP.scalar_invalidated_annotations(A) & {"PSD", "SelfAdjoint"} or TP.contaminated_by_scalar(tree, ("PSD", "SelfAdjoint")):
         out.inconclusive += 1
         out.label("contaminated:F-C05-scalar")
         return
